@@ -65,3 +65,102 @@ def check_zero(ex, cfg, status, ret, agg):
     mut = [e for e in ex.events[c['ev0']:c['ev1']] if e[0] in MUTATING]
     agg.note('a zero-length call issues no mutating operation', not mut, None if not mut else path_model(ex))
     check_claim(ex, agg, 'a zero-length call leaves the writer cursor and open-file state exactly as before', same_state(c['pre'], c['post']))
+
+
+# ----------------------------------------------------------------------------- C10: single-fault schedules
+
+def fault_once(ex, what, n):
+    F = z3.Int('FAULT_AT')
+    return F == n
+
+
+def fault_persistent(ex, what, n):
+    F = z3.Int('FAULT_AT')
+    return z3.And(F >= 0, n >= F)
+
+
+def _happened(ex, f):
+    if f is False: return False
+    if f is True: return True
+    return ex.valid(f)
+
+
+def check_fault(ex, cfg, status, ret, agg):
+    """history of valid calls + close under a single-fault schedule (one fallible library call fails once, or every call from it on fails).
+    The result of many fallible calls is ignored by the code, so on one path several fault positions remain possible: each is examined
+    under the assumption that the fault happened there."""
+    if status != 'ret':
+        agg.note('no C assert / abort / NULL dereference reachable under I/O faults', False, path_model(ex)); return
+    agg.note('no C assert / abort / NULL dereference reachable under I/O faults', True)
+    E = envstubs.env(ex)
+    cands = [(what, f, evi) for (what, f, evi) in E.fault_vars if f is not False]
+    seen = set()
+    for (what, f, evi) in cands:
+        if f is True:
+            _check_fault_at(ex, cfg, agg); return
+        if not ex.sat(f): continue
+        # first possible fault position only needs to be examined once per distinct schedule value
+        ex.solver.push(); ex.solver.add(f); ex.pc.append(f)
+        try:
+            _check_fault_at(ex, cfg, agg)
+        finally:
+            ex.pc.pop(); ex.solver.pop()
+
+
+def _check_fault_at(ex, cfg, agg):
+    files, problems = build_files(ex)
+    E = envstubs.env(ex)
+    faults = [(what, f, evi) for (what, f, evi) in E.fault_vars if _happened(ex, f)]
+    calls = ex.user['calls']
+    data_files = [f for f in files if not f['is_props']]
+    if not faults:
+        return
+    t_fault = faults[0][2]; kind = faults[0][0]
+    def ops_faulted(f):
+        evs = [f['ev'], f['fclose_ev']] + [w['ev'] for w in f['writes']] + [ev_ for (ev_, _) in f['dclose'].values()] + \
+              ([f['rf']['ev']] if f['rf'] else []) + ([f['index']['ev']] if f['index'] else []) + (f['index'].get('row_ev', []) if f['index'] else [])
+        bad = False
+        for (what, fl, evi) in faults:
+            # the fault flag is recorded at the index the event WILL have (status() is called before ev())
+            if evi in evs: bad = True
+        return bad
+    def published(f):
+        return f['rename_ev'] is not None and not _happened(ex, f.get('rename_fault', False))
+    sig = 'C10.%s' % kind
+    # (a) never publish a file one of whose write / close operations failed
+    for f in data_files:
+        if published(f) and ops_faulted(f):
+            agg.note('a file whose H5Dwrite / H5Dcreate2 / H5Dset_extent / H5Dclose / H5Fclose failed is never renamed to its final name [fault in %s]' % kind,
+                     False, dict(sig=sig + '.published', model=path_model(ex), fault=kind))
+        else:
+            agg.note('a file whose H5Dwrite / H5Dcreate2 / H5Dset_extent / H5Dclose / H5Fclose failed is never renamed to its final name [fault in %s]' % kind, True)
+    # (b) no silent loss
+    fault_call = next((i for i, c in enumerate(calls) if c['ev0'] <= t_fault < c['ev1']), None)
+    next_call = next((i for i, c in enumerate(calls) if c['ev0'] > t_fault), None)
+    accepted = [i for i, c in enumerate(calls) if ex.valid(c['ret'] == 0)]
+    lost = False
+    for i in accepted:
+        c = calls[i]
+        for f in data_files:
+            if any(c['ev0'] <= w['ev'] < c['ev1'] for w in f['writes']):
+                if not published(f) or ops_faulted(f): lost = True
+    if lost:
+        reported = (fault_call is not None and fault_call not in accepted) or (next_call is not None and next_call not in accepted)
+        silent = (not reported) and (next_call is not None or (fault_call is not None and fault_call in accepted and False))
+        agg.note('if an accepted sample does not end up in an intact published file, an error is reported no later than the first call after the '
+                 'failure (when there is one) [fault in %s]' % kind, not silent, None if not silent else dict(sig=sig + '.silent_loss', model=path_model(ex), fault=kind))
+    else:
+        agg.note('if an accepted sample does not end up in an intact published file, an error is reported no later than the first call after the '
+                 'failure (when there is one) [fault in %s]' % kind, True)
+    # sticky refusal: once has_failure is set (or a call failed for an I/O reason), later calls are refused
+    failed = [i for i, c in enumerate(calls) if i not in accepted]
+    if failed:
+        later_ok = [i for i in accepted if i > failed[0] and ex.valid(calls[failed[0]]['post']['has_failure'] == 1)]
+        agg.note('after a reported fatal I/O error (has_failure) the writer refuses every further write', not later_ok,
+                 None if not later_ok else dict(sig='C10.write_after_failure', model=path_model(ex), fault=kind))
+    # (c) files published before the fault are left alone
+    for f in data_files:
+        if f['rename_ev'] is not None and f['rename_ev'] < t_fault:
+            later = [e for e in ex.events[t_fault:] if e[0] in ('H5Fcreate', 'rename', 'remove')
+                     and any(isinstance(a, SymStr) and envstubs.strid(a) in (envstubs.strid(f['name']), envstubs.strid(f['final_name'])) for a in e[1:3])]
+            agg.note('files finalized before the fault are not touched afterwards', not later, None if not later else dict(sig='C10.touched', model=path_model(ex)))
